@@ -22,12 +22,9 @@ def search(prop, o, seconds=45):
         if os.path.exists(lock):
             shutil.copy(lock, os.path.join(wd, "Cargo.lock"))
         env = dict(os.environ, CARGO_NET_OFFLINE="true", CARGO_TARGET_DIR=os.path.join(VERIF, ".cache", "witness-target"))
-        b = subprocess.run(["cargo", "build", "--release", "--offline"], cwd=wd, env=env, capture_output=True, text=True, timeout=1200)
-        if b.returncode != 0:
-            return {"input_found": False, "note": "witness program does not build against the changed tree", "build_error": b.stderr[-1500:]}
-        if not os.path.exists(lock) and os.path.exists(os.path.join(wd, "Cargo.lock")):
-            pass
-        exe = os.path.join(env["CARGO_TARGET_DIR"], "release", "qwt-witness")
+        exe, err = build_program()
+        if exe is None:
+            return {"input_found": False, "note": "witness program does not build against the changed tree", "build_error": err}
         for seed in (1, 2, 3):
             try:
                 r = subprocess.run([exe, suite, str(seconds // 3), str(seed)], capture_output=True, text=True, timeout=seconds + 120)
@@ -91,15 +88,21 @@ def build_program():
         if os.path.exists(lock):
             shutil.copy(lock, os.path.join(wd, "Cargo.lock"))
         tdir = os.path.join(VERIF, ".cache", "witness-target")
+        os.makedirs(tdir, exist_ok=True)
         env = dict(os.environ, CARGO_NET_OFFLINE="true", CARGO_TARGET_DIR=tdir)
-        b = subprocess.run(["cargo", "build", "--release", "--offline"], cwd=wd, env=env, capture_output=True, text=True, timeout=1800)
-        if b.returncode != 0:
-            _BUILD["r"] = (None, b.stderr[-1500:])
-        else:
-            # keep a private copy: another check (another tree) may rebuild the shared target directory meanwhile
-            exe = os.path.join("/dev/shm", "qwt-witness-%s" % _digest("exe"))
-            shutil.copy(os.path.join(tdir, "release", "qwt-witness"), exe)
-            _BUILD["r"] = (exe, None)
+        import fcntl
+        # the target directory is shared by all checks: build and take a private copy of the binary under one lock, so
+        # that a concurrent check of another tree cannot swap the binary in between
+        with open(os.path.join(VERIF, ".cache", "witness-target.lock"), "w") as lk:
+            fcntl.flock(lk, fcntl.LOCK_EX)
+            b = subprocess.run(["cargo", "build", "--release", "--offline"], cwd=wd, env=env, capture_output=True, text=True, timeout=1800)
+            if b.returncode != 0:
+                _BUILD["r"] = (None, b.stderr[-1500:])
+            else:
+                exe = os.path.join("/dev/shm", "qwt-witness-%s" % _digest("exe"))
+                shutil.copy(os.path.join(tdir, "release", "qwt-witness"), exe + ".tmp%d" % os.getpid())
+                os.replace(exe + ".tmp%d" % os.getpid(), exe)
+                _BUILD["r"] = (exe, None)
     finally:
         shutil.rmtree(wd, ignore_errors=True)
     return _BUILD["r"]
